@@ -921,7 +921,7 @@ def run_history(ctx, spec, length, r, reqs, pending):
                     # new voxels appear: their value must not be one of the (unique) values tracked from `base`
                     if m != 'CONSTANT' or bool(np.isin(np.array(op['cval']).astype(base.array.dtype), base.array)):
                         base_ok = False
-            if op['op'] == 'with_array' or op['op'] in ('get_channel', 'permute_channels', 'permute_channels_by_id'):
+            if op['op'] == 'with_array':
                 base, base_ok = v2, True
             elif base_ok and good:
                 _history_check(ctx, case, base, v2, exact, site)
@@ -981,23 +981,31 @@ def run_history(ctx, spec, length, r, reqs, pending):
 
 
 def _history_check(ctx, case, base, v, exact, site):
-    """Values are unique per voxel in `base`: every value of `v` that is a base value sits at the base position."""
+    """Values are unique per (voxel, channel) in `base`: every value of `v` that is a base value sits at the position of the
+    base voxel that held it, and comes from the same voxel for all channels (spans channel selection / permutation)."""
     b = base.array
     flat_b = b.reshape(int(np.prod(b.shape[:3])), -1)
-    key_b = flat_b[:, 0]
+    nvox_b, nch_b = flat_b.shape
+    vals_b = flat_b.reshape(-1)
+    vox_of = np.repeat(np.arange(nvox_b), nch_b)
     a = v.array
     flat = a.reshape(int(np.prod(a.shape[:3])), -1)
-    key = flat[:, 0]
-    order = np.argsort(key_b, kind='stable')
-    pos_in_sorted = np.searchsorted(key_b[order], key)
-    pos_in_sorted = np.clip(pos_in_sorted, 0, len(order) - 1)
-    cand = order[pos_in_sorted]
-    uniq_vals, counts = np.unique(key_b, return_counts=True)
+    if flat.shape[1] == 0:
+        return
+    order = np.argsort(vals_b, kind='stable')
+    sorted_vals = vals_b[order]
+    uniq_vals, counts = np.unique(vals_b, return_counts=True)
     dup = set(uniq_vals[counts > 1].tolist())
-    hit = (key_b[cand] == key) & np.array([k not in dup for k in key.tolist()], dtype=bool)
+
+    def lookup(key):
+        pos = np.clip(np.searchsorted(sorted_vals, key), 0, len(order) - 1)
+        cand = order[pos]
+        hit = (vals_b[cand] == key) & np.array([k not in dup for k in key.tolist()], dtype=bool)
+        return vox_of[cand], hit
+    src0, hit = lookup(flat[:, 0])
     if not hit.any():
         return
-    jb = _all_indices(b.shape[:3])[cand[hit]]
+    jb = _all_indices(b.shape[:3])[src0[hit]]
     jv = _all_indices(a.shape[:3])[hit]
     pb = base.map_indices_to_reference(jb)
     pv = v.map_indices_to_reference(jv)
@@ -1005,10 +1013,16 @@ def _history_check(ctx, case, base, v, exact, site):
     if not same:
         d = np.argwhere(np.any(pb != pv, axis=1)).ravel()[:2] if exact else [0]
         ctx.fail(case, {'what': 'a surviving voxel value is no longer at its original physical position (whole history)',
-                        'examples': [{'value': np.asarray(key[hit][i]).tolist(), 'was': pb[i].tolist(), 'is': pv[i].tolist()} for i in d]},
+                        'examples': [{'value': np.asarray(flat[hit][i, 0]).tolist(), 'was': pb[i].tolist(), 'is': pv[i].tolist()} for i in d]},
                  site=site + '/history')
-    if not np.array_equal(flat[hit], flat_b[cand[hit]]):
-        ctx.fail(case, {'what': 'channel values of a surviving voxel changed (whole history)'}, site=site + '/history')
+    # every channel value of a surviving voxel comes from that same original voxel
+    for col in range(1, flat.shape[1]):
+        srck, hitk = lookup(flat[:, col])
+        both = hit & hitk
+        if both.any() and not np.array_equal(srck[both], src0[both]):
+            ctx.fail(case, {'what': 'channel values of one voxel come from different original voxels (whole history)'},
+                     site=site + '/history')
+            break
 
 
 # ------------------------------------------------------------------------------------------ comparison with the model
